@@ -515,6 +515,11 @@ func runC16(toks []string) string {
 			if !ok {
 				return sb.String() + " HANG"
 			}
+			if strings.HasPrefix(o, "blocked") {
+				// this goroutine stays inside WaitUtil for its full hour: the process is polluted (every
+				// later stack dump would have to walk over the leaked goroutines), stop executing cases
+				wcHung = true
+			}
 		}
 	}
 	return sb.String()
